@@ -813,6 +813,7 @@ static void drive(const vh::Lines &ls, const char *who) {
 #include "throw_part.hpp"
 #include "tp_part.hpp"
 #include "mix_part.hpp"
+#include "err_part.hpp"
 
 static void body(const vh::Lines &ls) {
 	ev_reset_all();
@@ -833,6 +834,7 @@ static void body(const vh::Lines &ls) {
 	else if(ty == "thr") thr_case(ls);
 	else if(ty == "tp") tp_case(ls);
 	else if(ty == "mix") mix_case(ls);
+	else if(ty == "err") err_case(ls);
 	else printf("badtype\n");
 }
 
